@@ -151,12 +151,18 @@ func (s *storageDeferredCreation) GetAfterAddSeq(ctx context.Context, addSeq uin
 	return nil
 }
 
-func (s *storageDeferredCreation) createStorageAndDoInTx(ctx context.Context, proc func(ctx context.Context) error) error {
+func (s *storageDeferredCreation) createStorageAndDoInTx(ctx context.Context, proc func(ctx context.Context) error) (err error) {
 	tx, err := s.store.WriteTx(ctx)
 	if err != nil {
 		return fmt.Errorf("write tx: %w", err)
 	}
-	defer tx.Rollback()
+	defer func() {
+		_ = tx.Rollback()
+		if err != nil {
+			// the storage was created inside the transaction that did not commit
+			s.storage = nil
+		}
+	}()
 
 	err = s.createStorage(tx.Context())
 	if err != nil {
